@@ -51,6 +51,11 @@ typedef uint64_t elem_t;      /* opaque element token for templates that only mo
    (declared and havocked by the generated harness): the contract says where the slot's value comes from. */
 #define GE_(V) (gh_e_##V < CAP ? gh_e_##V : 0)
 #define GE1_(V) (gh_e_##V + 1 < CAP ? gh_e_##V + 1 : 0)
+#ifdef SHIM_IMPL
+/* bounded (unwinding) runs execute the shift loop itself instead of using the contract */
+#define VEC_SHIMS_ERASE(V, T)                                                                                   \
+	static inline void V##_erase_at(V *v, size_t i) { for (size_t k_ = i; k_ + 1 < v->size; k_++) v->data[k_] = v->data[k_ + 1]; v->size--; }
+#else
 #define VEC_SHIMS_ERASE(V, T)                                                                                   \
 	void V##_erase_at(V *v, size_t i)                                                                           \
 		__CPROVER_requires(i < v->size && v->size <= CAP)                                                       \
@@ -58,5 +63,7 @@ typedef uint64_t elem_t;      /* opaque element token for templates that only mo
 		__CPROVER_ensures(v->size == __CPROVER_old(v->size) - 1)                                                \
 		__CPROVER_ensures((gh_e_##V < i) ==> v->data[GE_(V)] == __CPROVER_old(v->data[GE_(V)]))                 \
 		__CPROVER_ensures((gh_e_##V >= i && gh_e_##V < v->size) ==> v->data[GE_(V)] == __CPROVER_old(v->data[GE1_(V)]));
+
+#endif
 
 #endif
